@@ -397,6 +397,21 @@ pub fn wl_c19(seed: u64, tier: &str) -> Vec<Vec<Value>> {
         ops.push(st_read(*r.pick(&types), true, "read-past-end"));
         sessions.push(ops);
     }
+    // many values on one stream (cursor arithmetic over a long history)
+    {
+        let mut ops = vec![st("reset")];
+        let n = if thorough { 200 } else { 70 };
+        let items: Vec<(&str, bool)> = (0..n).map(|i| (types[(i * 5 + i / 7) % types.len()], i % 3 != 0)).collect();
+        for (ty, c) in &items {
+            ops.push(st_write(ty, rand_value(&mut r, &vals, ty), *c, "long-stream"));
+        }
+        ops.push(json!({"op": "st", "fn": "flip", "cls": "long-stream"}));
+        for (i, (ty, c)) in items.iter().enumerate() {
+            let chunk = if i % 4 == 0 { 13 } else { 0 };
+            ops.push(json!({"op": "st", "fn": "read", "ty": ty, "c": c, "chunk": chunk, "cls": "long-stream"}));
+        }
+        sessions.push(ops);
+    }
     // truncation at every prefix length of a single value (quick: sampled lengths)
     for ty in types.iter() {
         for c in [true, false].iter() {
